@@ -484,6 +484,42 @@ class CaseRun:
         if r is None or "error" in r or not isinstance(r.get("result"), str):
             self.bad(dict(feats, what="free-standing file not answered", query="syntaxTree"), got=str(r)[:300], **where)
 
+    def toml_history(self):
+        """the root project's gleam.toml loses one dependency entry on disk (reported through didChangeWatchedFiles) and gets
+        it back: in between, the imports of the root project's files resolve as Layout.Alt says, afterwards as before"""
+        alt = self.case["alt"]
+        rootpkg = self.case["pkgs"][0]
+        toml_rel = os.path.join(*rootpkg["loc"], "gleam.toml")
+        toml = os.path.join(self.root, toml_rel)
+        full = self.tree.tomls[toml_rel]
+        dropped = "\n".join(l for l in full.split("\n") if not l.startswith(alt["dropname"] + " =")) + ("" if full.endswith("\n") else "")
+        if dropped == full:
+            raise vlib.ToolError("toml history: no entry for " + alt["dropname"])
+        exp = {(tuple(u["from"]), tuple(u["name"])): u for u in alt["uses"]}
+        for rnd, text in (("toml_dropped", dropped), ("toml_restored", full)):
+            with open(toml, "w") as fh:
+                fh.write(text)
+            self.sess.notify("workspace/didChangeWatchedFiles", {"changes": [{"uri": lsp.uri(toml), "type": 2}]})
+            for parts in self.case["order"]:
+                f = self.tree.files[tuple(parts)]
+                if f["pkg"] != rootpkg["id"]:
+                    continue
+                for p in self.tree.probes[tuple(parts)]:
+                    if rnd == "toml_dropped":
+                        u = exp.get((tuple(parts), tuple(p["name"])))
+                        if u is None:
+                            continue
+                        decoys = list(p["decoys"]) + ([p["target"]] if p["target"] and list(p["target"]) != list(u["target"]) else [])
+                        member = p["member"] if list(u["target"]) == list(p["target"] or []) else None
+                        p2 = dict(p, target=u["target"] or None, targetpkg=u["targetpkg"], decoys=decoys, member=member)
+                        if not p2["target"]:
+                            p2["target"] = None
+                        self.probe_definition(parts, p2, rnd)
+                    else:
+                        self.probe_definition(parts, p, rnd)
+                    if not self.sess.alive():
+                        return
+
     def run(self):
         shutil.rmtree(self.root, ignore_errors=True)
         os.makedirs(self.root)
@@ -517,6 +553,8 @@ class CaseRun:
                     self.probes_of_file(parts, "final")
                     if not self.sess.alive():
                         break
+            if self.sess.alive() and (self.case.get("alt") or {}).get("drop"):
+                self.toml_history()
             if not self.sess.alive():
                 self.bad({"what": "server died", "importer_kind": "-", "round": "-"},
                          exit_code=self.sess.exit_code(), opened=[rel(p) for p in done])
